@@ -284,6 +284,24 @@ def partial_merkle_tree(txids, matches):
     return hashes, bytes(flags)
 
 
+def partial_merkle_tree_bits(n, matches):
+    """number of flag bits the BIP37 traversal of an n-leaf tree with these matches emits"""
+    height = 0
+    while (n + (1 << height) - 1) >> height > 1:
+        height += 1
+    count = 0
+
+    def build(h, pos):
+        nonlocal count
+        count += 1
+        if h and any(matches[p] for p in range(pos << h, min((pos + 1) << h, n))):
+            build(h - 1, pos * 2)
+            if pos * 2 + 1 < (n + (1 << (h - 1)) - 1) >> (h - 1):
+                build(h - 1, pos * 2 + 1)
+    build(height, 0)
+    return count
+
+
 # ------------------------------------------------------------------------------------------- p2p messages
 
 
